@@ -223,3 +223,20 @@ def entry_callers(F, fn, limit=6):
             else:
                 work.append(c.key)
     return [F.fns[k] for k in sorted(out)]
+
+
+
+def resolve_at(body, e, at):
+    """prune the alternatives of a phi that cannot be the value at location `at` (block, index): the parameter itself always can;
+    an assignment can only if it happens before `at` (its block dominates, or it is earlier in the same block). A variable that is
+    re-bound *after* the use (`n += v.len(); v = v.into_iter().filter(..).collect()`) then resolves to what it held at the use."""
+    x = strip(e)
+    if x[0] != "phi" or len(x) < 3:
+        return x
+    alive = []
+    for alt, dl in zip(x[1], x[2]):
+        if dl is None or (dl[0] == at[0] and dl[1] < at[1]) or (dl[0] != at[0] and body.dominates(dl[0], at[0])):
+            alive.append(alt)
+    if len(alive) == 1:
+        return strip(alive[0])
+    return x
